@@ -5,10 +5,12 @@ P="$1"; shift
 git -C /repo status --porcelain | grep -q . && { echo "/repo not clean"; exit 2; }
 git -C /repo apply "$P" || { echo "patch does not apply"; exit 3; }
 RC=0
+export VERIF_SCRATCH_OUT="/dev/shm/verif-seedout-$$"
 for c in "$@"; do
   OUT=$(cd /verif && ./check "$c" --tier "${TIER:-quick}" 2>&1 | grep -v WARNING | grep "^\[C\|^VIOLATION\|clause=" | cut -c1-330 | head -12)
   echo "$OUT"
   echo "$OUT" | grep -q "^VIOLATION" && RC=1
 done
 git -C /repo checkout -- .
+rm -rf "$VERIF_SCRATCH_OUT"
 echo "DETECTED=$RC"
